@@ -37,6 +37,7 @@ type Checker struct {
 	Notes []string
 
 	floors map[string]int // rule -> minimum number of obligations
+	mute   map[string]bool // rules whose obligations are not recorded (shared rule code run for another property)
 	seen   map[string]bool
 }
 
@@ -45,6 +46,9 @@ func newChecker(w *World, prop, tier string) *Checker {
 }
 
 func (c *Checker) add(rule, key string, pos token.Pos, verdict, detail string) {
+	if c.mute[rule] {
+		return
+	}
 	id := rule + "|" + key + "|" + verdict + "|" + detail
 	if c.seen[id] {
 		return
